@@ -46,7 +46,7 @@ func init() {
 	fw.Register(&fw.Prop{
 		ID:    "C08",
 		Level: "exploration",
-		Rule: "cases = (limit) sequences of messages sent by a raw peer with the read limit set/changed before each message: limits {0,1,125,126,1000,4096,default,65535,65536,100000,-1} x sizes {L-1,L,L+1,2L,10L+7} x fragmentations x compressed or not x reader (Read / Reader with fixed buffer) x role; " +
+		Rule: "cases = (limit) sequences of messages sent by a raw peer with the read limit set/changed before each message (for a quarter of them while the reader is already parked waiting for that message): limits {0,1,125,126,1000,4096,default,65535,65536,100000,-1} x sizes {L-1,L,L+1,2L,10L+7} x fragmentations x compressed or not x reader (Read / Reader with fixed buffer) x role; " +
 			"(bomb) messages of 16-256 MiB of zeros compressed >1000:1 with a limit set, and streamed through a fixed buffer with the limit disabled; (declared) frames declaring up to 2^63-1 payload bytes followed by a few bytes and EOF or a stall. " +
 			"Monitors: bytes handed to the caller, the Close status seen by the raw peer, and runtime.MemStats.TotalAlloc across the receive. distinct key = (kind, role, agreement, limit class, size relative to limit, compressed, fragmented, reader)",
 		Gen:              c08Gen,
